@@ -1,0 +1,316 @@
+//! Verification hook H3 (compiled only with `--cfg salsa_rs_salsa_verif`).
+//!
+//! (a) Every integer kernel that the layer-K translator reads from this crate, exposed as a
+//! plain function on integers, so that the translated Gallina definitions can be tested
+//! differentially against the compiled Rust.
+//! (b) Construction of stored query origins from raw `(is_output, ingredient, index,
+//! generation)` tuples plus extra-data flags, and what `origin()`, `inputs()`, `outputs()`,
+//! `extra()` and `clear_edges` yield; under feature `persistence` also the serde round trip.
+//!
+//! Functions that can panic in the crate return `None` when they do.
+
+use std::panic::{AssertUnwindSafe, catch_unwind};
+
+use crate::cycle::IterationStamp;
+use crate::zalsa_local::verif_k as zl;
+use crate::{Durability, Id, IngredientIndex, Revision};
+
+pub use crate::zalsa_local::verif_k::{OriginReport, RawEdge, RawKey};
+
+fn quiet<T>(f: impl FnOnce() -> T) -> Option<T> {
+    catch_unwind(AssertUnwindSafe(f)).ok()
+}
+
+fn durability(d: u8) -> Durability {
+    match d {
+        0 => Durability::LOW,
+        1 => Durability::MEDIUM,
+        2 => Durability::HIGH,
+        _ => Durability::NEVER_CHANGE,
+    }
+}
+
+// ---- K1 durability
+/// `[LOW, MEDIUM, HIGH, NEVER_CHANGE, MIN, MAX].index()` and `LEN`.
+pub fn dur_consts() -> [u64; 7] {
+    [
+        Durability::LOW.index() as u64,
+        Durability::MEDIUM.index() as u64,
+        Durability::HIGH.index() as u64,
+        Durability::NEVER_CHANGE.index() as u64,
+        Durability::MIN.index() as u64,
+        Durability::MAX.index() as u64,
+        Durability::LEN as u64,
+    ]
+}
+
+// ---- K2 write report
+pub fn rev_start() -> u64 {
+    Revision::start().as_usize() as u64
+}
+pub fn rev_next(r: u64) -> Option<u64> {
+    quiet(|| Revision::from(r as usize).next().as_usize() as u64)
+}
+pub fn last_changed_revision(revisions: [u64; 3], d: u8) -> u64 {
+    let mut array = [1usize; Durability::LEN];
+    for (slot, value) in array.iter_mut().zip(revisions) {
+        *slot = value as usize;
+    }
+    crate::runtime::verif_k::vk_last_changed_revision(array, durability(d)) as u64
+}
+/// The revision vector after `report_tracked_write(d)`; `None` if it panics.
+pub fn report_tracked_write(revisions: [u64; 3], d: u8) -> Option<[u64; 3]> {
+    let mut array = [1usize; Durability::LEN];
+    for (slot, value) in array.iter_mut().zip(revisions) {
+        *slot = value as usize;
+    }
+    quiet(|| {
+        let out = crate::runtime::verif_k::vk_report_tracked_write(array, durability(d));
+        let mut result = [0u64; 3];
+        for (slot, value) in result.iter_mut().zip(out) {
+            *slot = value as u64;
+        }
+        result
+    })
+}
+
+// ---- K3 (only the callable part)
+pub fn changed_if(changed: bool) -> bool {
+    !crate::function::VerifyResult::changed_if(changed).is_unchanged()
+}
+
+// ---- K4 stamp
+pub fn max_iterations() -> u8 {
+    crate::cycle::verif_k::vk_max_iterations()
+}
+fn stamp(raw: u16) -> IterationStamp {
+    crate::cycle::verif_k::vk_stamp_from_raw(raw)
+}
+fn stamp_raw(stamp: IterationStamp) -> u16 {
+    crate::cycle::verif_k::vk_stamp_raw(stamp)
+}
+pub fn stamp_new(iteration: u8, cancellation_count: u8) -> u16 {
+    crate::cycle::verif_k::vk_stamp_new(iteration, cancellation_count)
+}
+pub fn stamp_initial(cancellation_count: u8) -> u16 {
+    stamp_raw(IterationStamp::initial(cancellation_count))
+}
+pub fn stamp_is_default(raw: u16) -> bool {
+    stamp(raw).is_default()
+}
+pub fn stamp_is_initial_iteration(raw: u16) -> bool {
+    stamp(raw).is_initial_iteration()
+}
+pub fn stamp_iteration(raw: u16) -> u8 {
+    stamp(raw).iteration()
+}
+pub fn stamp_cancellation_count(raw: u16) -> u8 {
+    stamp(raw).cancellation_count()
+}
+pub fn stamp_iteration_as_u32(raw: u16) -> u32 {
+    stamp(raw).iteration_as_u32()
+}
+/// `None` if the addition overflows (debug builds) -- reported as `Some(None)`/`Some(Some)`
+/// otherwise.
+pub fn stamp_increment_iteration(raw: u16) -> Option<Option<u16>> {
+    quiet(|| stamp(raw).increment_iteration().map(stamp_raw))
+}
+pub fn bump_cancellation_count(count: u8) -> (bool, u8) {
+    crate::runtime::verif_k::vk_bump_cancellation_count(count)
+}
+
+// ---- K5 id
+pub fn id_max_u32() -> u32 {
+    Id::MAX_U32
+}
+/// `Id::from_index(index)` as its bits.
+pub fn id_from_index(index: u32) -> u64 {
+    // SAFETY: only the integer result is inspected.
+    unsafe { Id::from_index(index) }.as_bits()
+}
+/// `Id::from_bits(bits)` re-encoded; `None` if it panics (zero index word).
+pub fn id_from_bits(bits: u64) -> Option<u64> {
+    quiet(|| Id::from_bits(bits).as_bits())
+}
+pub fn id_index(bits: u64) -> Option<u32> {
+    quiet(|| Id::from_bits(bits).index())
+}
+pub fn id_generation(bits: u64) -> Option<u32> {
+    quiet(|| Id::from_bits(bits).generation())
+}
+pub fn id_with_generation(bits: u64, generation: u32) -> Option<u64> {
+    quiet(|| Id::from_bits(bits).with_generation(generation).as_bits())
+}
+pub fn id_next_generation(bits: u64) -> Option<Option<u64>> {
+    quiet(|| Id::from_bits(bits).next_generation().map(Id::as_bits))
+}
+
+// ---- K6 page
+pub fn page_consts() -> [u64; 4] {
+    crate::table::verif_k::vk_page_consts().map(|value| value as u64)
+}
+pub fn make_id(page: u64, slot: u64) -> u64 {
+    crate::table::verif_k::vk_make_id(page as usize, slot as usize).as_bits()
+}
+pub fn split_id(bits: u64) -> Option<(u64, u64)> {
+    quiet(|| {
+        let (page, slot) = crate::table::verif_k::vk_split_id(Id::from_bits(bits));
+        (page as u64, slot as u64)
+    })
+}
+
+// ---- K7 edge
+pub fn ing_new(value: u32) -> Option<u32> {
+    quiet(|| IngredientIndex::new(value).as_u32())
+}
+pub fn ing_with_tag(value: u32, tag: bool) -> u32 {
+    // SAFETY: only the integer result is inspected.
+    unsafe { IngredientIndex::new_unchecked(value) }
+        .with_tag(tag)
+        .as_u32()
+}
+pub fn ing_tag(value: u32) -> bool {
+    // SAFETY: only the integer result is inspected.
+    unsafe { IngredientIndex::new_unchecked(value) }.tag()
+}
+pub fn qe_input(key: RawKey) -> RawEdge {
+    zl::vk_edge_parts(crate::zalsa_local::QueryEdge::input(zl::vk_key(key)))
+}
+pub fn qe_output(key: RawKey) -> RawEdge {
+    zl::vk_edge_parts(crate::zalsa_local::QueryEdge::output(zl::vk_key(key)))
+}
+pub fn qe_key(edge: RawEdge) -> RawKey {
+    zl::vk_key_parts(zl::vk_raw_edge(edge).key())
+}
+/// 0 = input, 1 = output.
+pub fn qe_kind(edge: RawEdge) -> u8 {
+    zl::vk_edge_kind(zl::vk_raw_edge(edge))
+}
+pub fn qe_id_bits(edge: RawEdge) -> u64 {
+    zl::vk_edge_id_bits(zl::vk_raw_edge(edge))
+}
+pub fn packed_consts() -> [u32; 3] {
+    zl::vk_packed_consts()
+}
+/// `PackedQueryEdge::new` on an edge with the given raw ingredient word (tag included).
+pub fn packed_new(ingredient_with_tag: u32, index: u32, generation: u32) -> Option<(u32, u32)> {
+    zl::vk_packed_new((index, generation, ingredient_with_tag))
+}
+pub fn packed_edge(index: u32, metadata: u32) -> RawEdge {
+    zl::vk_packed_edge(index, metadata)
+}
+pub fn derived_tag(untracked: bool, wide: bool, with_extra: bool) -> Option<[u8; 4]> {
+    quiet(|| zl::vk_derived_tag(untracked, wide, with_extra))
+}
+pub fn tag_consts() -> [u8; 3] {
+    zl::vk_tag_consts()
+}
+
+// ---- K8 token
+pub fn tok_consts() -> [u8; 2] {
+    zl::vk_tok_consts()
+}
+pub fn tok_cancel(byte: u8) -> u8 {
+    zl::vk_tok_cancel(byte)
+}
+pub fn tok_is_cancelled(byte: u8) -> bool {
+    zl::vk_tok_is_cancelled(byte)
+}
+pub fn tok_set_cancellation_disabled(byte: u8, disabled: bool) -> (bool, u8) {
+    zl::vk_tok_set_disabled(byte, disabled)
+}
+pub fn tok_should_trigger(byte: u8) -> bool {
+    zl::vk_tok_should_trigger(byte)
+}
+pub fn tok_reset(byte: u8) -> u8 {
+    zl::vk_tok_reset(byte)
+}
+
+// ---- K9 retention
+pub fn rq_immortal() -> u64 {
+    crate::interned::verif_k::vk_immortal() as u64
+}
+fn usizes(values: &[u64]) -> Vec<usize> {
+    values.iter().map(|&value| value as usize).collect()
+}
+pub fn rq_record(queue: &[u64], revision: u64) -> Vec<u64> {
+    crate::interned::verif_k::vk_record(&usizes(queue), revision as usize)
+        .into_iter()
+        .map(|value| value as u64)
+        .collect()
+}
+pub fn rq_is_stale(queue: &[u64], revision: u64) -> bool {
+    crate::interned::verif_k::vk_is_stale(&usizes(queue), revision as usize)
+}
+pub fn rq_is_primed(queue: &[u64]) -> bool {
+    crate::interned::verif_k::vk_is_primed(&usizes(queue))
+}
+
+// ---- stored origins
+
+/// Builds a derived origin (`kind` 3 = derived, 2 = derived-untracked) from
+/// `(is_output, (ingredient, index, generation))` tuples and `extra_flags` (bit 0 force,
+/// bit 1 iteration stamp, bit 2 cycle head) and reports what it decodes to. `None` on panic.
+pub fn origin_roundtrip(
+    kind: u8,
+    edges: &[(bool, RawKey)],
+    extra_flags: u8,
+) -> Option<OriginReport> {
+    quiet(|| zl::vk_report(&zl::vk_build_derived(kind, edges, extra_flags)))
+}
+
+pub fn origin_assigned_roundtrip(key: RawKey, extra_flags: u8) -> Option<OriginReport> {
+    quiet(|| zl::vk_report(&zl::vk_build_assigned(key, extra_flags)))
+}
+
+/// The same origin after `clear_edges`. `None` on panic.
+#[cfg(not(feature = "persistence"))]
+pub fn origin_clear_edges(
+    kind: u8,
+    edges: &[(bool, RawKey)],
+    extra_flags: u8,
+) -> Option<OriginReport> {
+    quiet(|| {
+        let mut origin = zl::vk_build_derived(kind, edges, extra_flags);
+        zl::vk_clear_edges(&mut origin);
+        zl::vk_report(&origin)
+    })
+}
+
+/// Serialises one edge (given by its raw words) with the caller's serializer.
+#[cfg(feature = "persistence")]
+pub fn edge_serialize<S: serde::Serializer>(edge: RawEdge, serializer: S) -> Result<S::Ok, S::Error> {
+    serde::Serialize::serialize(&zl::vk_raw_edge(edge), serializer)
+}
+
+/// Deserialises one edge and returns its raw words.
+#[cfg(feature = "persistence")]
+pub fn edge_deserialize<'de, D: serde::Deserializer<'de>>(deserializer: D) -> Result<RawEdge, D::Error> {
+    let edge: crate::zalsa_local::QueryEdge = serde::Deserialize::deserialize(deserializer)?;
+    Ok(zl::vk_edge_parts(edge))
+}
+
+/// Serialises the persistent form of a freshly built derived origin.
+#[cfg(feature = "persistence")]
+pub fn origin_serialize<S: serde::Serializer>(
+    kind: u8,
+    edges: &[(bool, RawKey)],
+    extra_flags: u8,
+    serializer: S,
+) -> Result<S::Ok, S::Error> {
+    let origin = zl::vk_build_derived(kind, edges, extra_flags);
+    serde::Serialize::serialize(&zl::vk_persistent_origin(&origin), serializer)
+}
+
+/// Deserialises a persistent origin, stores it with the given extra data and reports what the
+/// stored origin decodes to.
+#[cfg(feature = "persistence")]
+pub fn origin_deserialize<'de, D: serde::Deserializer<'de>>(
+    deserializer: D,
+    extra_flags: u8,
+) -> Result<OriginReport, D::Error> {
+    let origin: crate::zalsa_local::persistence::PersistentQueryOrigin =
+        serde::Deserialize::deserialize(deserializer)?;
+    let stored = crate::zalsa_local::OriginAndExtra::new(origin, zl::vk_extra(extra_flags));
+    Ok(zl::vk_report(&stored))
+}
